@@ -1,6 +1,7 @@
 #!/bin/bash
 # seed_matrix.sh [seed ids...] - for every seeded change: apply it to a scratch copy of /repo's HEAD and run every
 # registered check against that copy (VERIF_REPO); prints one line per (seed, check) and writes seed_matrix.json.
+# OWN=1: only the check of the property the seed was written against.
 # Meant for `vp run --with-repo`: works in the snapshot's own /verif copy, never touches /repo or /verif.
 cd "$(dirname "$0")/.."
 export LC_ALL=C
@@ -15,7 +16,7 @@ for sd in $seeds; do
   git -C $base archive HEAD | tar -x -C $work
   ( cd $work && git init -q . && git apply $OLDPWD/seeded/$sd/patch.diff ) || { echo "$sd: patch does not apply"; rm -rf $work; continue; }
   det=""
-  for c in $checks; do
+  for c in $( [ -n "$OWN" ] && echo ${sd:0:3} || echo $checks ); do
     out=$(VERIF_REPO=$work timeout 1200 python3 tools/vcheck.py $c 2>&1); rc=$?
     v=$(echo "$out" | grep -c '^VIOLATION')
     nf=$(echo "$out" | grep '^VIOLATION' | grep -c 'no-failing-input-found')
